@@ -956,4 +956,94 @@ theorem exTree_doc : (treeDoc exTree).isSome = true := by decide +kernel
 example : parseQua "Title: a b\nMode: '123'\nArtist: 'it''s: #1'\nSliderVelocities: []\nTimingPoints:\n- StartTime: 0\n  Bpm: 120.5\nHitObjects:\n- StartTime: 5\n  Lane: 1\n  KeySounds:\n  - Sample: 1\n    Volume: 100\n" = some exTree :=
   parse_emit_partial exTree _ exTree_wf exTree_text
 
+
+/-- different well-formed trees of the class have different texts -/
+theorem emitQua_injective (t1 t2 : Tree) (s : String) (h1 : WFTree t1) (h2 : WFTree t2) (e1 : emitQua t1 = some s)
+    (e2 : emitQua t2 = some s) : t1 = t2 := by
+  have a := parse_emit_partial t1 s h1 e1
+  have b := parse_emit_partial t2 s h2 e2
+  rw [a] at b
+  exact Option.some.inj b
+
+/-! ### non-vacuity of the composed theorems on a whole chart -/
+
+section
+open Reamber.Qua (sampleMeta write)
+open Reamber.Qua.Spec (quantize)
+/-- a chart whose numbers have finite decimals: two hits (one with a key sound, one at a negative fractional time), a
+hold, two tempo points, a scroll velocity, two tags -/
+def textChart : Chart :=
+  ⟨sampleMeta, [⟨201 / 2, 2, .list []⟩, ⟨-1 / 2, 0, .list [⟨1, 50⟩]⟩], [⟨7 / 10, 1, 3 / 10, .list []⟩],
+   [⟨0, 120, 3⟩, ⟨10009 / 10, 175 / 2, 4⟩], [⟨11 / 2, 17 / 20⟩]⟩
+
+def e (k : String) (s : String) : List Char × V (V Sc) := (k.toList, .sc (.str s.toList))
+
+/-- the document `write textChart` builds, with `represent_float`'s lexemes, in the order `QuaMap.write` uses -/
+def textTree : Tree :=
+  [e "AudioFile" "", ("SongPreviewTime".toList, .sc (.int 0)), e "BackgroundFile" "", e "BannerFile" "", e "Genre" "",
+   ("BPMDoesNotAffectScrollVelocity".toList, .sc (.bool true)), ("InitialScrollVelocity".toList, .sc (.flt "1.0".toList)),
+   ("HasScratchKey".toList, .sc (.bool true)), ("MapId".toList, .sc (.int (-1))), ("MapSetId".toList, .sc (.int (-1))),
+   e "Mode" "Keys4", e "Title" "", e "Artist" "", e "Source" "", e "Tags" "a b:c", e "Creator" "", e "DifficultyName" "",
+   e "Description" "", ("EditorLayers".toList, .empty), ("CustomAudioSamples".toList, .empty), ("SoundEffects".toList, .empty),
+   ("TimingPoints".toList, .recs [[("StartTime".toList, .sc (.int 0)), ("Bpm".toList, .sc (.flt "120.0".toList))],
+                                   [("StartTime".toList, .sc (.int 1000)), ("Bpm".toList, .sc (.flt "87.5".toList))]]),
+   ("SliderVelocities".toList, .recs [[("StartTime".toList, .sc (.int 5)), ("Multiplier".toList, .sc (.flt "0.85".toList))]]),
+   ("HitObjects".toList, .recs
+     [[("StartTime".toList, .sc (.int 100)), ("Lane".toList, .sc (.int 3)), ("KeySounds".toList, .empty)],
+      [("StartTime".toList, .sc (.int 0)), ("Lane".toList, .sc (.int 1)),
+       ("KeySounds".toList, .recs [[("Sample".toList, .int 1), ("Volume".toList, .int 50)]])],
+      [("StartTime".toList, .sc (.int 0)), ("Lane".toList, .sc (.int 2)), ("KeySounds".toList, .empty),
+       ("EndTime".toList, .sc (.int 1))]])]
+
+theorem textTree_doc : treeDoc textTree = (write textChart).toOption ∧ (write textChart).toOption.isSome = true := by
+  decide +kernel
+
+/-! Bool versions of the structural well-formedness (for `decide` on concrete trees) -/
+def wf2B (r : R2) : Bool := !r.isEmpty
+def wfvB {α} (p : List (List Char × α) → Bool) : V α → Bool
+  | .recs l => !l.isEmpty && l.all p
+  | _ => true
+def wf1B (r : R1) : Bool := !r.isEmpty && r.all (fun kv => wfvB wf2B kv.2)
+def wf0B (t : Tree) : Bool := t.all (fun kv => wfvB wf1B kv.2)
+
+theorem wfv_of_B {α} (p : List (List Char × α) → Bool) (P : List (List Char × α) → Prop) (hp : ∀ r, p r = true → P r)
+    (v : V α) (h : wfvB p v = true) : WFV P v := by
+  cases v with
+  | sc s => trivial
+  | empty => trivial
+  | recs l =>
+    simp only [wfvB, Bool.and_eq_true, List.all_eq_true] at h
+    refine ⟨?_, fun r hr => hp r (h.2 r hr)⟩
+    intro e; subst e; simp at h
+
+theorem wf2_of_B (r : R2) (h : wf2B r = true) : WF2 r := by
+  intro e; subst e; simp [wf2B] at h
+
+theorem wf1_of_B (r : R1) (h : wf1B r = true) : WF1 r := by
+  simp only [wf1B, Bool.and_eq_true, List.all_eq_true] at h
+  refine ⟨?_, fun kv hkv => wfv_of_B wf2B WF2 wf2_of_B kv.2 (h.2 kv hkv)⟩
+  intro e; subst e; simp at h
+
+theorem wf0_of_B (t : Tree) (h : wf0B t = true) : WF0 t := by
+  simp only [wf0B, List.all_eq_true] at h
+  exact fun kv hkv => wfv_of_B wf1B WF1 wf1_of_B kv.2 (h kv hkv)
+
+theorem textTree_wf : WFTree textTree := ⟨wf0_of_B _ (by decide +kernel), by decide +kernel⟩
+
+theorem textTree_text : (emitQua textTree).isSome = true := by decide +kernel
+
+/-- **Non-vacuity of the composed theorem**: the hypotheses of `qua_read_write_text` hold together for a whole chart, so
+reading the text written for it gives the chart with whole-millisecond times. -/
+theorem textChart_round_trip : ∃ s, emitQua textTree = some s ∧ readText s = some (.ok (quantize textChart)) := by
+  cases hs : emitQua textTree with
+  | none => have := textTree_text; simp [hs] at this
+  | some s =>
+    refine ⟨s, rfl, ?_⟩
+    cases hw : write textChart with
+    | error e => have := textTree_doc.2; simp [hw, Except.toOption] at this
+    | ok d =>
+      have hd : treeDoc textTree = some d := by rw [textTree_doc.1, hw]; rfl
+      exact qua_read_write_text textChart d textTree s (by constructor <;> decide +kernel) hw textTree_wf hd hs
+end
+
 end Reamber.QuaText
